@@ -258,10 +258,10 @@ REGISTRY = {
         'theorems': ['PP.C01.output_reads_back', 'PP.C01.canon_reads_back', 'PP.Tok.canon_reads', 'PP.C03.output_tokens', 'PP.Limits.limits_tokens',
                      'PP.C04.sound_pformat', 'PP.C02.lines_join', 'PP.C02.lines_nonempty', 'PP.C02.unescape_escape', 'PP.C01.sorted_perm',
                      'PP.C01.insertion_order', 'PP.C01.output_reads_back_sorted', 'PP.Tok.inC01_shown', 'PP.C01.canon_reads_back\'', 'PP.C01.output_reads_back\'',
-                     'PP.Tok.inC01_inRd'],
+                     'PP.Tok.inC01_inRd', 'PP.Sort.sortK_ordered', 'PP.Sort.sortK_stable'],
         'modules': VALUE_MODULES + ['PP.Props.Values', 'PP.Spec.Tokens', 'PP.Spec.Reader', 'PP.Proofs.Toks', 'PP.Proofs.ToksStr', 'PP.Proofs.ToksComb',
                                     'PP.Proofs.ToksVal', 'PP.Proofs.ReaderRT', 'PP.Props.C03', 'PP.Props.C01b', 'PP.Proofs.Shown',
-                                    'PP.Proofs.ShownC01', 'PP.Props.C01c', 'PP.Props.C02', 'PP.Props.C04'],
+                                    'PP.Proofs.ShownC01', 'PP.Props.C01c', 'PP.Props.C02', 'PP.Props.C04', 'PP.Props.SortSpec'],
         'sections': [{'name': 'builtin-values', 'run': values_sec('builtin_values_section')},
                      {'name': 'tokens', 'run': values_sec('tokens_section')},
                      {'name': 'reader', 'run': values_sec('reader_section', mode='c01')},
